@@ -23,6 +23,9 @@ density = np.empty_like(radius); visc = np.empty_like(radius); shear = np.empty_
 for i, (t, st, inc) in enumerate(layers):
     m = (radius <= bounds[i]) & (radius > (bounds[i - 1] if i else -1))
     density[m] = 8500. - 1500. * i
+    if cfg.get('gradient'):
+        # density decreasing linearly inside each layer (so that 'top of the layer below' and 'bottom of the layer above' are different numbers)
+        density[m] = np.linspace(8500. - 1500. * i + 400., 8500. - 1500. * i - 400., int(m.sum()))
     visc[m] = 1e26 if t == 'solid' else 1e6
     shear[m] = 1e11 if t == 'solid' else 0.0
 bulk = 1.0e11 * np.ones_like(radius)
@@ -85,6 +88,21 @@ try:
                 worst = max(worst, abs(a - b) / (abs(a) + abs(b) + 1e-300))
             rows.append([[complex(k_).real, complex(k_).imag], [complex(love[t][0]).real, complex(love[t][0]).imag]])
         out['love_vs_result_surface'] = worst
+        # continuity of the potential y5 (and of y1, y2, y6 where neither side is a static liquid) between the last slice of a layer and the first slice of the next:
+        # the upper layer is started from the interface map of the lower layer's top values, so the two slices must agree to round-off
+        jumps = []
+        idx = 0
+        counts = [int(((radius <= bounds[i]) & (radius > (bounds[i - 1] if i else -1))).sum()) for i in range(nl)]
+        for i in range(nl - 1):
+            idx += counts[i]
+            lo_static_liq = layers[i][0] != 'solid' and bool(layers[i][1])
+            up_static_liq = layers[i + 1][0] != 'solid' and bool(layers[i + 1][1])
+            rows = [4] if (lo_static_liq or up_static_liq) else [0, 1, 4, 5]
+            for t in range(nty):
+                for rw in rows:
+                    a_, b_ = res[6 * t + rw, idx - 1], res[6 * t + rw, idx]
+                    jumps.append(float(abs(a_ - b_) / (abs(a_) + abs(b_) + 1e-300)))
+        out['interface_jumps_max'] = max(jumps) if jumps else 0.0
         out['love'] = [[[complex(v).real, complex(v).imag] for v in love[t]] for t in range(nty)]
         out['love_rows'] = rows
 except BaseException as e:
